@@ -227,13 +227,14 @@ def report(part, sig, dtname, args, bad, msgf, route="vec"):
 # ------------------------------------------------------------------ scalar (eager) route
 
 
-def scalar_eval(fa, name, dtname, args):
+def scalar_eval(fa, name, dtname, args, ctx=None):
     """Evaluate through utils.NumpyContext on scalars (what the unit tests exercise)."""
     import functional_algorithms.apmath_algorithms as apa
 
     t = DT[dtname]
     fpa = fa.floating_point_algorithms
-    ctx = fa.utils.NumpyContext(t)
+    if ctx is None:
+        ctx = fa.utils.NumpyContext(t)
     k = consts(dtname)
     n = len(args[0])
     outs = None
@@ -649,6 +650,39 @@ def w_f64(task):
     return part
 
 
+def w_shared_context(task):
+    """one NumpyContext used for several float types in sequence (scalar route): results equal to a fresh context's"""
+    fa = setup_repo_import()
+    part = new_part()
+    names = ["nextup", "is_power_of_two[default]", "is_one_or_three_times_power_of_two", "add_3sum", "mul_add", "add_4sum", "dot2"] + [f"apmath_algorithms.fma_real[{a},fix_overflow={fo},possibly_zero_z={pz}]" for a, fo, pz in FMA_VARIANTS]
+    pts = [0.1, 1.0, -3.0, 100.5, -0.00123, 3.0, 0.75, 2.5e-3]
+    for name in names:
+        nargs = 1 if name in ("nextup", "is_power_of_two[default]", "is_one_or_three_times_power_of_two") else (4 if name in ("add_4sum", "dot2") else 3)
+        for d0 in ("float16", "float32", "float64"):
+            for seq in itertools.product(("float16", "float32", "float64"), repeat=task["length"]):
+                ctx = fa.utils.NumpyContext(DT[d0])
+                for step, dtname in enumerate(seq):
+                    t = DT[dtname]
+                    xs = np.array(pts, dtype=t)
+                    args = [np.roll(xs, k) for k in range(nargs)]
+                    part["evaluations"] += 1
+                    try:
+                        got = scalar_eval(fa, name, dtname, args, ctx=ctx)
+                        ref = scalar_eval(fa, name, dtname, args, ctx=fa.utils.NumpyContext(DT[d0]))
+                    except Exception as e:
+                        bump(part, f"shared_context_raises:{type(e).__name__}")
+                        break
+                    if step:
+                        part["nontrivial"] += 1
+                    gl = got if isinstance(got, list) else [got]
+                    rl = ref if isinstance(ref, list) else [ref]
+                    if not all(np.asarray(g_).dtype == np.asarray(r_).dtype and np.asarray(g_).tobytes() == np.asarray(r_).tobytes() for g_, r_ in zip(gl, rl)):
+                        add_violation(part, f"{name}:shared-context:{dtname}-after-{'+'.join(seq[:step]) or 'nothing'}:differs-from-fresh-context", f"NumpyContext({d0}) used for {seq[:step + 1]}: {name} on {dtname} gives {gl} but a fresh context {rl}", {"kind": "shared", "sig": name, "d0": d0, "seq": list(seq)})
+                        break
+    part["samples"].append({"shared_context": "all dtype sequences", "length": task["length"]})
+    return part
+
+
 def w_selftest(task):
     part = new_part()
     n = rn_sum2_selftest(task["dtype"], task["seed"])
@@ -663,6 +697,7 @@ def run(run):
         build_funcs(fa, dtname)  # built once in the parent; forked workers inherit the compiled evaluators
     run.counters["compiled_evaluators"] = sum(1 for d in _FUNCS.values() for f in d.values() if not isinstance(f, Exception))
     run.map(MOD, "w_selftest", [dict(dtype="float16", seed=run.seed), dict(dtype="float32", seed=run.seed)])
+    run.map(MOD, "w_shared_context", [dict(length=2)] + ([dict(length=3)] if run.tier == "thorough" else []))
     tasks = []
     allb = np.arange(1 << 16, dtype=np.int64)
     for i in range(16):
@@ -722,6 +757,9 @@ def run(run):
 def replay(case):
     fa = setup_repo_import()
     part = new_part()
+    if case.get("kind") == "shared":
+        p2 = w_shared_context(dict(length=len(case["seq"])))
+        return [(v["sig"], v["msg"]) for v in p2["violations"] if v["case"].get("sig") == case["sig"]]
     dtname = case["dtype"]
     t = DT[dtname]
     route = case.get("route", "vec")
